@@ -37,6 +37,20 @@ func roundTrip(reg *registry, c *ctor, v bin.Object) (res rtResult) {
 			return
 		}
 		res.encoded = append([]byte(nil), enc.Buf...)
+		// Encoding must be a function of the value, not of the buffer's history: the same value
+		// encoded into a reused buffer whose backing array holds non-zero bytes of an earlier message
+		// (Reset() with ample spare capacity; bin.Pool after a dirty Put) must give the same bytes.
+		for variant, dirty := range dirtyBuffers(len(enc.Buf)) {
+			if err := v.Encode(dirty); err != nil {
+				res.sig, res.detail = "roundtrip|dirty-buffer-encode-error|"+c.name, err.Error()
+				return
+			}
+			if !bytes.Equal(dirty.Buf, enc.Buf) {
+				res.sig = "roundtrip|dirty-buffer-encoding-differs|" + c.name
+				res.detail = fmt.Sprintf("%s: first difference at byte %d; reused buffer: %s", variant, firstDiff(dirty.Buf, enc.Buf), hx(dirty.Buf))
+				return
+			}
+		}
 		dst := reg.skeleton(v)
 		in := bin.Buffer{Buf: append([]byte(nil), enc.Buf...)}
 		if err := dst.Decode(&in); err != nil {
@@ -139,4 +153,35 @@ func trunc2(s string, n int) string {
 		return s[:n] + "..."
 	}
 	return s
+}
+
+var dirtyPool = bin.NewPool(0)
+
+// dirtyBuffers returns reused buffers with spare capacity >= 2n+64 whose backing arrays are
+// full of 0xAA: one after Reset(), one that went through bin.Pool Put/Get (sync.Pool may hand
+// out a fresh buffer instead; then that variant is merely a second clean encoding).
+func dirtyBuffers(n int) map[string]*bin.Buffer {
+	fill := func() *bin.Buffer {
+		arr := make([]byte, 2*n+64)
+		for i := range arr {
+			arr[i] = 0xAA
+		}
+		return &bin.Buffer{Buf: arr}
+	}
+	a := fill()
+	a.Reset()
+	dirtyPool.Put(fill())
+	return map[string]*bin.Buffer{"reset": a, "pool": dirtyPool.Get()}
+}
+
+func firstDiff(a, b []byte) int {
+	for i := 0; i < len(a) && i < len(b); i++ {
+		if a[i] != b[i] {
+			return i
+		}
+	}
+	if len(a) < len(b) {
+		return len(a)
+	}
+	return len(b)
 }
